@@ -24,6 +24,9 @@ class Wild(Obj):
     def m_clear(self, I, args, n):
         return VOID
 
+    def m_reserve(self, I, args, n):
+        return VOID
+
 
 class EntryObj(Obj):
     cls = "MapKeyEntry"
@@ -1077,6 +1080,20 @@ class PushQueue(Obj):
     def m_end(self, I, args, n):
         return ("end", self)
 
+    # observers of the heap's current content: arbitrary
+    def m_empty(self, I, args, n):
+        return I.ctx.fresh("queue_empty", "bool")
+
+    def m_size(self, I, args, n):
+        v = I.ctx.fresh("queue_size")
+        I.ctx.assume(v >= 0)
+        return v
+
+    def m_front(self, I, args, n):
+        ctx = I.ctx
+        w, s = ctx.fresh("front_when"), ctx.fresh("front_slot")
+        return SchedVal(w, s, ctx.fresh("front_pulled", "bool"))
+
 
 class SchedVal(Obj):
     cls = "MapChildSchedule"
@@ -1084,6 +1101,9 @@ class SchedVal(Obj):
     def __init__(self, when, slot, pulled):
         Obj.__init__(self, name="schedule_value")
         self.when, self.slot, self.pulled = when, slot, pulled
+
+    def member(self, ctx, name, node):
+        return getattr(self, name)
 
 
 class PushPulledChildSchedule(Kernel):
@@ -1152,3 +1172,448 @@ class PushPulledChildSchedule(Kernel):
 
 
 KERNELS.append(PushPulledChildSchedule)
+
+
+# ------------------------------------------------------------------ prepare_map_evaluation_slots and its helpers (C10)
+#
+# EntryStoreInv: an entry exists only in a slot below slot_capacity (InPlaceGraphSlotStore).
+# BitInv: the candidate bitmap has one bit per slot of the entry store (size >= slot_capacity) -- SlotBitmap::set silently
+# ignores a bit beyond the bitmap's size, so a smaller bitmap drops live children from the evaluation.
+
+NPOS = z3.Int("NPOS")
+
+
+class CandBitmap(Obj):
+    """SlotBitmap (slot_bitmap.h): size bit_count, set(bit) is a no-op for bit >= bit_count"""
+    cls = "SlotBitmap"
+
+    def __init__(self, k):
+        Obj.__init__(self, name="evaluation_candidates")
+        self.k = k
+
+    def g(self, ctx, nm):
+        return ctx.store[(self.k.g.oid, nm)]
+
+    def m_resize(self, I, args, n):
+        I.ctx.write(Loc((self.k.g.oid, "bm_size")), I.ctx.rv(args[0]))
+        return VOID
+
+    def m_reset(self, I, args, n):
+        if args:
+            raise Gap("SlotBitmap::reset(bit)")
+        I.ctx.write(Loc((self.k.g.oid, "cand")), z3.K(I_, z3.BoolVal(False)))
+        return VOID
+
+    def m_set(self, I, args, n):
+        ctx = I.ctx
+        b = ctx.rv(args[0])
+        cand = self.g(ctx, "cand")
+        ctx.write(Loc((self.k.g.oid, "cand")), z3.If(z3.And(b >= 0, b < self.g(ctx, "bm_size")), z3.Store(cand, b, True), cand))
+        return VOID
+
+    def m_size(self, I, args, n):
+        return self.g(I.ctx, "bm_size")
+
+
+class SlotKernel(MapKernel):
+    """shared state for the helpers: entries per slot, candidate bitmap"""
+    property_ids = ("C10",)
+
+    def slot_base(self, I):
+        ctx = I.ctx
+        self.base(I)
+        g = self.g
+        self.cap = z3.Int("slot_capacity")
+        self.bm0 = z3.Int("bitmap_size0")
+        ctx.assume(z3.And(self.cap >= 0, self.bm0 >= 0, NPOS > self.cap, NPOS > self.bm0))
+        ctx.assume(z3.ForAll([qs], z3.Implies(z3.Not(self.entry_null[qs]), z3.And(qs >= 0, qs < self.cap))))      # EntryStoreInv
+        ctx.store[(g.oid, "bm_size")] = self.bm0
+        self.cand0 = z3.Array("candidates0", I_, B_)
+        ctx.store[(g.oid, "cand")] = self.cand0
+        st = self.st
+        k = self
+        ctx.store[(st.oid, "evaluation_candidates")] = CandBitmap(self)
+        ents = Obj("InPlaceGraphSlotStore", "entries")
+        ents.m_slot_capacity = lambda I_2, a, n: k.cap
+        ents.m_entry_count = lambda I_2, a, n: k.entry_count(I_2)
+        ctx.store[(st.oid, "entries")] = ents
+        st.m_entry_at = lambda I_2, a, n: k.entry_ptr(I_2.ctx.rv(a[0]))
+
+    def entry_count(self, I):
+        c = I.ctx.fresh("entry_count")
+        I.ctx.assume(z3.And(c >= 0, c <= self.cap))
+        return c
+
+    def global_var(self, I, ref, node):
+        if ref.get("name") in ("TS_DATA_NO_CHILD_ID", "npos"):
+            return NPOS
+        if ref.get("name") == "nullopt":
+            return Wild(name="nullopt")
+        return None
+
+
+class AddMapEvaluationSlot(SlotKernel):
+    name = "map_node.cpp:add_map_evaluation_slot"
+    fn_name = "add_map_evaluation_slot"
+    filter = "add_map_evaluation_slot"
+    title = "add_map_evaluation_slot: under BitInv a slot that holds an entry becomes an evaluation candidate"
+
+    def setup(self, I):
+        self.slot_base(I)
+        self.slot = z3.Int("slot")
+        I.ctx.assume(z3.And(self.slot >= 0, self.bm0 >= self.cap))            # requires BitInv
+        return None, {"storage": self.st, "slot": self.slot}
+
+    def post(self, I, ret):
+        ctx = I.ctx
+        cand = self.gg(ctx, "cand")
+        ctx.oblige("ensures.an-entry's-slot-becomes-a-candidate;nothing-else-changes[C10 a live key's child is never dropped from the "
+                   "evaluation]", z3.And(
+                       z3.Implies(z3.And(self.slot != NPOS, z3.Not(self.entry_null[self.slot])), cand[self.slot]),
+                       z3.ForAll([qs], z3.Implies(qs != self.slot, cand[qs] == self.cand0[qs])),
+                       z3.Implies(self.cand0[self.slot], cand[self.slot])), kind="post-normal")
+
+
+class CollectAllMapEvaluationSlots(SlotKernel):
+    name = "map_node.cpp:collect_all_map_evaluation_slots"
+    fn_name = "collect_all_map_evaluation_slots"
+    filter = "collect_all_map_evaluation_slots"
+    title = "collect_all_map_evaluation_slots: under BitInv every slot that holds an entry becomes a candidate"
+    inline = ("add_map_evaluation_slot",)
+    extra_dumps = ((TU, "add_map_evaluation_slot"),)
+
+    def locate(self, dumps):
+        fn = Kernel.locate(self, dumps)
+        self.index(dumps[(TU, "add_map_evaluation_slot")])
+        return fn
+
+    def setup(self, I):
+        self.slot_base(I)
+        I.ctx.assume(self.bm0 >= self.cap)
+        I.ctx.store[(self.st.oid, "evaluation_slots")] = Wild(name="evaluation_slots")
+        return None, {"storage": self.st}
+
+    def inv(self, I, ctx):
+        s = self.local(I, "slot")
+        cand = self.gg(ctx, "cand")
+        yield "slot-range", z3.And(s >= 0, s <= self.cap)
+        yield "entries-below-the-cursor-are-candidates", z3.ForAll([qs], z3.And(
+            z3.Implies(z3.And(qs >= 0, qs < s, z3.Not(self.entry_null[qs])), cand[qs]), z3.Implies(self.cand0[qs], cand[qs])))
+        yield "bitmap-size-unchanged", self.gg(ctx, "bm_size") == self.bm0
+
+    def frame(self, I, ctx):
+        return [Loc((self.g.oid, "cand"))]
+
+    @property
+    def loops(self):
+        return {0: LoopSpec(self.inv, self.frame)}
+
+    def post(self, I, ret):
+        ctx = I.ctx
+        cand = self.gg(ctx, "cand")
+        ctx.oblige("ensures.every-entry's-slot-is-a-candidate[C10 the full scan visits every live key's child]",
+                   z3.ForAll([qs], z3.And(z3.Implies(z3.Not(self.entry_null[qs]), cand[qs]), z3.Implies(self.cand0[qs], cand[qs]))),
+                   kind="post-normal")
+
+
+class InputW(Obj):
+    """a TSInputView of the map node: observers are arbitrary"""
+    cls = "TSInputView"
+
+    def __init__(self, k, what):
+        Obj.__init__(self, name=what)
+        self.k, self.what = k, what
+
+    def m_indexed_child_at(self, I, a, n):
+        return InputW(self.k, "child_input")
+
+    def m_modified(self, I, a, n):
+        return I.ctx.fresh("input_modified", "bool")
+
+    def m_valid(self, I, a, n):
+        return I.ctx.fresh("input_valid", "bool")
+
+    def m_data_view(self, I, a, n):
+        return DataW(self.k)
+
+
+class DataW(Obj):
+    cls = "TSDataView"
+
+    def __init__(self, k):
+        Obj.__init__(self, name="data_view")
+        self.k = k
+
+    def m_as_set(self, I, a, n):
+        return SetW(self.k)
+
+
+class StorageRef(Obj):
+    cls = "storage_ref"
+
+    def __init__(self, pid):
+        Obj.__init__(self, name="storage_ref")
+        self.pid = pid
+
+    def m_base(self, I, a, n):
+        return self
+
+    def m_storage_ref(self, I, a, n):
+        return self
+
+    def m_data(self, I, a, n):
+        return self.pid
+
+
+class SetW(Obj):
+    cls = "TSSDataView"
+
+    def __init__(self, k):
+        Obj.__init__(self, name="keys")
+        self.k = k
+
+    def m_base(self, I, a, n):
+        return StorageRef(I.ctx.fresh("keys_storage"))
+
+    def m_next_added_slot(self, I, a, n):
+        return I.ctx.fresh("next_added_slot")
+
+    def m_find_slot(self, I, a, n):
+        return I.ctx.fresh("found_slot")
+
+
+class DictW(Obj):
+    cls = "TSDDataView"
+
+    def __init__(self, k):
+        Obj.__init__(self, name="dict")
+        self.k = k
+
+    def m_modified(self, I, a, n):
+        return I.ctx.fresh("dict_modified", "bool")
+
+    def m_key_set(self, I, a, n):
+        return SetW(self.k)
+
+    def m_next_modified_slot(self, I, a, n):
+        return I.ctx.fresh("next_modified_slot")
+
+    def m_key_at_slot(self, I, a, n):
+        return Wild(name="key")
+
+
+class SourceW(Obj):
+    cls = "TSOutputHandle"
+
+    def m_bound(self, I, a, n):
+        return I.ctx.fresh("source_bound", "bool")
+
+    def m_data_view(self, I, a, n):
+        return Wild(name="source_data")
+
+
+class ArgW(Obj):
+    cls = "MappedArg"
+
+    def __init__(self, k):
+        Obj.__init__(self, name="arg")
+        self.k = k
+
+    def member(self, ctx, name, node):
+        if name == "source":
+            o = Obj("MapArgSource", "source")
+            ctx.store[(o.oid, "kind")] = ctx.fresh("arg_source_kind")
+            ctx.store[(o.oid, "outer_index")] = ctx.fresh("outer_index")
+            return o
+        if name == "refreshes_projected_children":
+            return ctx.fresh("refreshes_projected_children", "bool")
+        raise Gap("arg member %s" % name)
+
+
+class PrepareMapEvaluationSlots(SlotKernel):
+    name = "map_node.cpp:prepare_map_evaluation_slots"
+    fn_name = "prepare_map_evaluation_slots"
+    filter = "prepare_map_evaluation_slots"
+    title = "prepare_map_evaluation_slots: the candidate bitmap covers every slot, due schedule entries become candidates and " \
+            "leave the heap, PW is preserved, and without an outer input event every child is a candidate"
+    max_paths = 60000
+
+    def entry_ptr(self, slot):
+        return Ptr(EvalEntry(self, slot), self.entry_null[slot])
+
+    def setup(self, I):
+        ctx = I.ctx
+        self.slot_base(I)
+        g = self.g
+        ctx.store[(g.oid, "pw")] = z3.Array("pulled_when0", I_, I_)
+        ctx.store[(g.oid, "wit")] = z3.Array("pw_witness0", I_, I_)
+        ctx.store[(g.oid, "h_popped")] = z3.IntVal(-1)
+        ctx.store[(g.oid, "collected")] = z3.BoolVal(False)
+        ctx.store[(g.oid, "materialized")] = z3.IntVal(0)
+        self.pw0 = ctx.store[(g.oid, "pw")]
+        self.present0 = ctx.store[(g.oid, "h_present")]
+        ctx.assume(MapEvaluateImpl.PW(self, ctx))
+        ctx.assume(MapEvaluateImpl.ids_ok(self, ctx))
+        st = self.st
+        k = self
+        ctx.store[(st.oid, "evaluation_slots")] = Wild(name="evaluation_slots")
+        ctx.store[(st.oid, "resume_position_plus_one")] = z3.Int("resume0")
+        self.refresh0 = z3.Bool("refresh_all_bindings0")
+        ctx.store[(st.oid, "refresh_all_bindings")] = self.refresh0
+        self.heap = EvalHeap(self)
+        ctx.store[(st.oid, "child_schedule_queue")] = self.heap
+        nmux, nargs, nchg = z3.Int("n_multiplexed"), z3.Int("n_args"), z3.Int("n_membership_changed")
+        self.nmux, self.nargs, self.nchg = nmux, nargs, nchg
+        nouter = z3.Int("n_outer_sources")
+        mux_data = z3.Array("multiplexed_inputs_data", I_, I_)
+        ctx.assume(z3.And(nmux >= 0, nargs >= 0, nchg >= 0))
+        # validated when the node is built (validate_map_node_spec): every multiplexed input index names an outer source
+        ctx.assume(z3.ForAll([qk], z3.And(mux_data[qk] >= 0, mux_data[qk] < nouter)))
+        ctx.store[(st.oid, "outer_sources")] = Vec(ctx, "outer_sources", length=nouter, elem=lambda j: SourceW(name="source"))
+        ctx.store[(st.oid, "membership_changed_keys")] = Vec(ctx, "membership_changed_keys", length=nchg, elem=lambda j: KeyOf(k, j))
+        cx = Obj("MapNodeContext", "context")
+        spec = Obj("MapNodeSpec", "spec")
+        acc = Obj("access", "access")
+        ctx.store[(cx.oid, "spec")] = spec
+        ctx.store[(cx.oid, "access")] = acc
+        ctx.store[(spec.oid, "keys_input_index")] = Opt(z3.BoolVal(True), z3.Int("keys_input_index"))
+        ctx.store[(spec.oid, "multiplexed_inputs")] = Vec(ctx, "multiplexed_inputs", length=nmux, data=mux_data)
+        ctx.store[(acc.oid, "args")] = Vec(ctx, "args", length=nargs, elem=lambda j: ArgW(k))
+        view = self.view
+        view.m_input = lambda I_2, a, n: InputW(k, "root_input")
+        self.was_primed = z3.Bool("was_primed")
+        return None, {"view": view, "context": cx, "storage": st, "evaluation_time": self.T, "was_primed": self.was_primed}
+
+    PW = MapEvaluateImpl.PW
+    ids_ok = MapEvaluateImpl.ids_ok
+    f_pop_heap = MapEvaluateImpl.f_pop_heap
+
+    def enum_const(self, I, ref):
+        if ref.get("name") == "OuterInput":
+            return z3.IntVal(1)
+        raise Gap("enum constant %s" % ref.get("name"))
+
+    def ctor_handler(self, qt, node):
+        if "greater<" in qt:
+            return lambda I, args, n: Wild(name="greater")
+        if qt.endswith("MapChildSchedule") or qt.endswith("TSDataView") or qt.endswith("TSOutputHandle"):
+            return lambda I, args, n: (I.ctx.rv(args[0]) if args else Wild(name="empty"))
+        return Kernel.ctor_handler(self, qt, node)
+
+    def f_checked_dict_view(self, I, args, n):
+        return DictW(self)
+
+    def f_move(self, I, args, n):
+        return I.ctx.rv(args[0])
+
+    def covers(self, ctx):
+        return self.gg(ctx, "bm_size") >= self.cap
+
+    def f_add_map_evaluation_slot(self, I, args, n):
+        """contract proved by AddMapEvaluationSlot; its precondition BitInv is the caller's obligation"""
+        ctx = I.ctx
+        s = ctx.rv(args[1])
+        ctx.oblige("callee-pre.add_map_evaluation_slot:the-candidate-bitmap-has-a-bit-for-every-slot-of-the-entry-store[C10 a live "
+                   "key's child is never dropped from the evaluation]", self.covers(ctx), kind="callee-pre")
+        cand = self.gg(ctx, "cand")
+        ctx.write(Loc((self.g.oid, "cand")), z3.If(z3.And(s != NPOS, z3.Not(self.entry_null[s])), z3.Store(cand, s, True), cand))
+        return VOID
+
+    def f_collect_all_map_evaluation_slots(self, I, args, n):
+        ctx = I.ctx
+        ctx.oblige("callee-pre.collect_all:the-candidate-bitmap-has-a-bit-for-every-slot-of-the-entry-store[C10]", self.covers(ctx),
+                   kind="callee-pre")
+        old = self.gg(ctx, "cand")
+        new = ctx.fresh("candidates_after_full_scan", old.sort())
+        ctx.assume(z3.ForAll([qs], z3.And(z3.Implies(z3.Not(self.entry_null[qs]), new[qs]), z3.Implies(old[qs], new[qs]))))
+        ctx.write(Loc((self.g.oid, "cand")), new)
+        ctx.write(Loc((self.g.oid, "collected")), z3.BoolVal(True))
+        return VOID
+
+    def f_materialize_map_evaluation_slots(self, I, args, n):
+        ctx = I.ctx
+        ctx.write(Loc((self.g.oid, "materialized")), self.gg(ctx, "materialized") + 1)
+        return VOID
+
+    # invariants
+    def common(self, ctx):
+        yield "bitmap-sized-to-the-slot-capacity", self.gg(ctx, "bm_size") == self.cap
+        yield "candidates-only-entries'-slots", z3.ForAll([qs], z3.Implies(self.gg(ctx, "cand")[qs], z3.Not(self.entry_null[qs])))
+        yield "heap-untouched", z3.And(self.gg(ctx, "h_present") == self.present0, self.gg(ctx, "pw") == self.pw0,
+                                       self.gg(ctx, "h_popped") == -1)
+        yield "not-collected-yet", z3.And(z3.Not(self.gg(ctx, "collected")), self.gg(ctx, "materialized") == 0)
+
+    def inv_simple(self, I, ctx):
+        out = list(self.common(ctx))
+        out.append(("a-full-scan-once-requested-stays-requested", z3.Implies(z3.Or(self.refresh0, z3.Not(self.was_primed)),
+                                                                              self.local(I, "full_scan"))))
+        return out
+
+    def inv_range(self, length):
+        def inv(I, ctx):
+            out = self.inv_simple(I, ctx)
+            pos = self.range_pos(I)
+            out.append(("iterator-in-range", z3.And(pos >= 0, pos <= length)))
+            return out
+        return inv
+
+    def popped_ok(self, ctx):
+        """every schedule entry that left the heap was due; unless stale it made its slot a candidate"""
+        pres, when, slot, pulled = (self.gg(ctx, nm) for nm in ("h_present", "h_when", "h_slot", "h_pulled"))
+        cand = self.gg(ctx, "cand")
+        gone = z3.And(self.present0[qe], z3.Not(pres[qe]))
+        return z3.ForAll([qe], z3.Implies(gone, z3.And(
+            when[qe] <= self.T,
+            z3.Implies(z3.And(z3.Not(self.entry_null[slot[qe]]), z3.Or(z3.Not(pulled[qe]), self.pw0[slot[qe]] == when[qe])),
+                       cand[slot[qe]]))))
+
+    def inv_drain(self, I, ctx):
+        pres = self.gg(ctx, "h_present")
+        yield "bitmap-sized-to-the-slot-capacity", self.gg(ctx, "bm_size") == self.cap
+        yield "PW:a-pulled-deadline-is-in-the-heap", self.PW(ctx)
+        yield "heap-only-shrinks", z3.ForAll([qe], z3.Implies(pres[qe], self.present0[qe]))
+        yield "popped-entries-were-due-and-became-candidates[C10]", self.popped_ok(ctx)
+        yield "pulled-deadlines-only-cleared,and-then-the-slot-is-a-candidate", z3.ForAll([qs], z3.Or(
+            self.gg(ctx, "pw")[qs] == self.pw0[qs], z3.And(self.gg(ctx, "pw")[qs] == MAX_DT, self.gg(ctx, "cand")[qs])))
+        yield "a-full-scan-once-requested-stays-requested", z3.Implies(z3.Or(self.refresh0, z3.Not(self.was_primed)),
+                                                                        self.local(I, "full_scan"))
+        yield "nothing-popped", self.gg(ctx, "h_popped") == -1
+        yield "not-collected-yet", z3.And(z3.Not(self.gg(ctx, "collected")), self.gg(ctx, "materialized") == 0)
+
+    def frame_simple(self, I, ctx):
+        return [Loc((self.g.oid, "cand")), Loc((self.st.oid, "refresh_all_bindings"))]
+
+    def local_loc(self, I, nm):
+        f = I.ctx.frame
+        while f is not None:
+            for did, b in reversed(list(f.vars.items())):
+                if isinstance(b, Loc) and getattr(b, "decl_name", None) == nm:
+                    return b
+            f = f.parent
+        raise Gap("no local %s" % nm)
+
+    def frame_drain(self, I, ctx):
+        return [Loc((self.g.oid, nm)) for nm in ("cand", "pw", "h_present", "h_popped")]
+
+    @property
+    def loops(self):
+        simple = LoopSpec(self.inv_simple, self.frame_simple)
+        rng = lambda n: LoopSpec(self.inv_range(n), self.frame_simple)
+        return {0: rng(self.nargs), 1: simple, 2: rng(self.nmux), 3: simple, 4: rng(self.nchg),
+                5: LoopSpec(self.inv_drain, self.frame_drain)}
+
+    def post(self, I, ret):
+        ctx = I.ctx
+        pres, when = self.gg(ctx, "h_present"), self.gg(ctx, "h_when")
+        ctx.oblige("ensures.PW-preserved", self.PW(ctx), kind="post-normal")
+        ctx.oblige("ensures.no-due-entry-left-in-the-heap;every-due-non-stale-entry's-slot-is-a-candidate[C10 a child due by its own "
+                   "schedule is not starved]", z3.And(z3.ForAll([qe], z3.Implies(pres[qe], when[qe] > self.T)), self.popped_ok(ctx)),
+                   kind="post-normal")
+        ctx.oblige("ensures.materialized-once,cursor-reset", z3.And(self.gg(ctx, "materialized") == 1,
+                   ctx.store[(self.st.oid, "resume_position_plus_one")] == 0), kind="post-normal")
+        ctx.oblige("ensures.first-evaluation-or-refresh=>every-child-is-a-candidate[C10]",
+                   z3.Implies(z3.Or(self.refresh0, z3.Not(self.was_primed)),
+                              z3.ForAll([qs], z3.Implies(z3.Not(self.entry_null[qs]), self.gg(ctx, "cand")[qs]))), kind="post-normal")
+
+
+KERNELS += [AddMapEvaluationSlot, CollectAllMapEvaluationSlots, PrepareMapEvaluationSlots]
